@@ -33,6 +33,8 @@ const basePrelude = `
 (define-fun bsnil () BS (mkBS true eps))
 (declare-datatypes ((Any 0)) (((mkAny (a.tid Int) (a.val Int)))))
 (define-fun anil () Any (mkAny 0 0))
+(define-fun isNil ((a Any)) Bool (= a (mkAny 0 0)))
+(define-fun isErr ((e Any)) Bool (not (= e (mkAny 0 0))))
 (define-fun wfSlice ((s Slice)) Bool (and (>= (sl.arr s) 0) (>= (sl.off s) 0) (>= (sl.len s) 0) (>= (sl.cap s) (sl.len s)) (<= (sl.cap s) 1152921504606846976) (=> (= (sl.arr s) 0) (and (= (sl.cap s) 0) (= (sl.off s) 0)))))
 ; ---- byte strings (contents abstract) ----
 (declare-fun blen (Bytes) Int)
